@@ -42,14 +42,17 @@ def cases(draw):
     for f in files:
         imps = []
         for _ in range(draw(st.integers(0, 3))):
-            k = draw(st.sampled_from(["file", "file", "file", "file", "missing", "noext", "outside", "mod-ok", "mod-nofile", "mod-missing", "mod-badname", "modfile", "file"]))
+            k = draw(st.sampled_from(["file", "file", "file", "file", "missing", "noext", "outside", "outside-prefix", "mod-ok", "mod-nofile", "mod-missing", "mod-badname", "modfile", "file"]))
             imp = {"kind": k, "spelling": draw(st.integers(0, 3))}
             if k == "file":
                 imp["target"] = draw(st.integers(0, n - 1))
             elif k == "missing":
                 imp["path"] = draw(st.sampled_from(["nothere.capy", "sub/nothere.capy", "../nothere.capy", "lib/x/y.capy"]))
             elif k == "noext":
-                imp["path"] = draw(st.sampled_from(["data.txt", "f1", "main", "notes.capy.bak", "sub/f1.cap"]))
+                imp["path"] = draw(st.sampled_from(["data.txt", "f1", "main", "notes.capy.bak", "sub/f1.cap", "main.capy/", "main.capy/.", "../work/main.capy/", ".capy/x"]))
+            elif k == "outside-prefix":
+                # a sibling directory whose name *starts with* the name of the working / module directory
+                imp["path"] = draw(st.sampled_from(["work2/ext.capy", "mods2/ext.capy", "workshop/ext.capy"]))
             elif k == "mod-badname":
                 imp["path"] = draw(st.sampled_from(["al-pha", "../alpha", "alpha/src", "alpha.capy", "al pha", "alpha/"]))
             imps.append(imp)
@@ -122,6 +125,10 @@ def layout(case, wname="work"):
                 p = rel_spelling(f["dir"], "../outside/ext.capy", imp["spelling"] if imp["spelling"] != 2 else 0, wname)
                 lines.append(f'{name} :: #import("{p}");')
                 model["bad"].append((i, len(lines), kind))
+            elif kind == "outside-prefix":
+                p = rel_spelling(f["dir"], "../" + imp["path"], imp["spelling"] if imp["spelling"] != 2 else 0, wname)
+                lines.append(f'{name} :: #import("{p}");')
+                model["bad"].append((i, len(lines), "outside"))
             else:
                 lines.append(f'{name} :: #import("{imp["path"]}");')
                 model["bad"].append((i, len(lines), kind))
@@ -139,6 +146,8 @@ def layout(case, wname="work"):
     out["mods/alpha/src/helper.capy"] = f'who :: () -> i64 {{ {HELPER} }}\ndeep :: (n: i64) -> i64 {{ {HELPER} }}\n'
     out["mods/beta/src/readme.txt"] = "no mod.capy here\n"
     out["outside/ext.capy"] = "who :: () -> i64 { 777 }\ndeep :: (n: i64) -> i64 { 777 }\n"
+    for sib in ("work2", "mods2", "workshop"):
+        out[f"{sib}/ext.capy"] = "who :: () -> i64 { 778 }\ndeep :: (n: i64) -> i64 { 778 }\n"
     out[os.path.join(wname, "data.txt")] = "not a capy file\n"
     out[os.path.join(wname, "f1")] = "who :: () -> i64 { 1 }\n"
     out[os.path.join(wname, "sub/f1.cap")] = "who :: () -> i64 { 1 }\n"
@@ -274,8 +283,8 @@ def replay_payload(payload, scratch):
 
 
 RULE = ("trees of 1-6 source files in <= 3 directories of a working directory + a module directory (good module with helper file, module without mod.capy, absent module) + a directory "
-        "outside both + non-.capy files; 0-3 imports per file: relative imports in 4 spellings (plain, ./, up-and-back, backslashes) incl. self-imports and cycles, missing / non-.capy / "
-        "outside targets, #mod good / without mod.capy / absent / non-alphanumeric, relative import into the module directory; all files define the same names with their own identity. "
+        "outside both + non-.capy files; 0-3 imports per file: relative imports in 4 spellings (plain, ./, up-and-back, backslashes) incl. self-imports and cycles, missing / non-.capy (also `x.capy/`) / "
+        "outside targets (also sibling directories whose name starts with the working directory's), #mod good / without mod.capy / absent / non-alphanumeric, relative import into the module directory; all files define the same names with their own identity. "
         "Non-trivial = >= 2 import edges among reachable files and (>= 2 different spellings or a bad import in a reachable file); distinct by case.")
 
 
